@@ -30,7 +30,10 @@ use core::cell::Cell;
 use core::ptr;
 use core::slice::Iter;
 use core::sync::atomic::Ordering::*;
+#[cfg(not(arc_swap_verif))]
 use core::sync::atomic::{AtomicPtr, AtomicUsize};
+#[cfg(arc_swap_verif)]
+use crate::verif::{AtomicPtr, AtomicUsize};
 
 #[cfg(feature = "experimental-thread-local")]
 use core::cell::OnceCell;
@@ -367,5 +370,67 @@ mod tests {
     #[test]
     fn new_empty() {
         assert!(Node::get_thread().is_empty());
+    }
+}
+
+/// Accessors for the external verification harness.
+#[cfg(arc_swap_verif)]
+#[allow(missing_docs)]
+pub(crate) mod verif {
+    use super::*;
+    use crate::verif::NodeInfo;
+    use alloc::vec::Vec;
+
+    pub const DEBT_NONE: usize = Debt::NONE;
+
+    /// Address of the list head.
+    pub fn list_head_addr() -> usize {
+        &LIST_HEAD as *const _ as usize
+    }
+
+    /// A snapshot of all the nodes in the list (head first), read without the hook.
+    pub fn nodes() -> Vec<NodeInfo> {
+        let mut result = Vec::new();
+        let mut current = unsafe { LIST_HEAD.raw().as_ref() };
+        while let Some(node) = current {
+            let mut info = NodeInfo {
+                addr: node as *const _ as usize,
+                fast: node.fast_slots().map(|d| &d.0 as *const _ as usize).collect(),
+                fast_vals: node.fast_slots().map(|d| d.0.raw()).collect(),
+                in_use: &node.in_use as *const _ as usize,
+                in_use_val: node.in_use.raw(),
+                active_writers: &node.active_writers as *const _ as usize,
+                active_writers_val: node.active_writers.raw(),
+                ..NodeInfo::default()
+            };
+            node.helping.verif_info(&mut info);
+            result.push(info);
+            current = unsafe { node.next.as_ref() };
+        }
+        result
+    }
+
+    /// Forget all the nodes (they are leaked). Only call when no thread owns a node.
+    pub fn reset_list() {
+        LIST_HEAD.raw_store(ptr::null_mut());
+    }
+
+    /// The address of the node owned by the current thread, if any (does not claim one).
+    pub fn thread_node() -> Option<usize> {
+        THREAD_HEAD
+            .try_with(|head| head.node.get().map(|n| n as *const _ as usize))
+            .ok()
+            .and_then(|n| n)
+    }
+
+    /// The generation counter of the helping strategy of the current thread.
+    pub fn generation() -> usize {
+        LocalNode::with(|local| local.helping.verif_generation().get())
+    }
+
+    /// Preset the generation counter of the current thread (must be a multiple of 4).
+    pub fn set_generation(gen: usize) {
+        assert_eq!(gen & 0b11, 0);
+        LocalNode::with(|local| local.helping.verif_generation().set(gen))
     }
 }
